@@ -192,6 +192,11 @@ def parse_segments(text, version=None, encoding_chars=None, validation_level=Non
                         else:
                             current_parent.add(segment)
                         break
+            else:
+                if find_groups:
+                    # the segment is not part of the message structure (e.g. a Z segment): it is kept, as a
+                    # child of the message, instead of being silently discarded
+                    segments.append(parse_segment(s.strip(), version, encoding_chars, validation_level))
     return segments
 
 
